@@ -248,6 +248,7 @@ structure Layout where
   hdrSizeof : Nat                        -- `ctypes.sizeof(QMI_UdpResponderPacketHeader)`
   recvMax : Nat                          -- `recvfrom(4096)` in the responder
   clientRecvMax : Nat                    -- `recvfrom(4096)` in `ping_qmi_contexts`
+  maxNameChars : Nat                     -- `is_valid_object_name`: `len(name) > 63` is refused
   deriving Repr
 
 def kindOfNat : Nat → Kind
@@ -276,7 +277,8 @@ def genLayout : Layout :=
     lookup := Gen.DiscoveryLayouts.lookup.map (fun e => (e.1, kindOfNat e.2.1, e.2.2))
     hdrSizeof := Gen.DiscoveryLayouts.headerSizeof
     recvMax := Gen.DiscoveryLayouts.responderRecvMax
-    clientRecvMax := Gen.DiscoveryLayouts.clientRecvMax }
+    clientRecvMax := Gen.DiscoveryLayouts.clientRecvMax
+    maxNameChars := Gen.DiscoveryLayouts.maxObjectNameLen }
 
 def hdrSizes (L : Layout) : List Nat := [L.magicSz, L.tagSz, L.idSz, L.tsSz]
 
@@ -309,6 +311,7 @@ def WellFormed (L : Layout) : Bool :=
   && L.rIdSz == L.idSz && L.rTsSz == L.tsSz
   && decide (sizeOf L .infoReq < L.recvMax) && decide (sizeOf L .infoResp < L.clientRecvMax)
   && decide (sizeOf L .infoResp < L.recvMax) && decide (sizeOf L .infoReq < L.clientRecvMax)
+  && decide (L.maxNameChars ≤ L.nameLen)
 
 /-- cut a buffer into consecutive fields (`from_buffer_copy` on a packed structure) -/
 def splitFields : List Nat → Bytes → List Bytes
@@ -374,6 +377,23 @@ structure Ctx where
   pid : Int
   port : Int
   deriving DecidableEq, Repr
+
+/-- the character class of `is_valid_object_name`: `[-_a-zA-Z0-9()]` -/
+def nameChar (c : Char) : Bool :=
+  c == '-' || c == '_' || c == '(' || c == ')' ||
+  (decide ('a' ≤ c) && decide (c ≤ 'z')) || (decide ('A' ≤ c) && decide (c ≤ 'Z')) || (decide ('0' ≤ c) && decide (c ≤ '9'))
+
+/-- `is_valid_object_name` (qmi/core/util.py): at most `maxNameChars` characters and
+`re.match(r"^[-_a-zA-Z0-9()]+$", name)` — note that `$` also matches before one trailing newline -/
+def validObjectName (L : Layout) (name : List Char) : Bool :=
+  let body := if name.getLast? = some '\n' then name.dropLast else name
+  decide (name.length ≤ L.maxNameChars) && !body.isEmpty && body.all nameChar
+
+/-- `QMI_Context.__init__`: which (context name, workgroup name) pairs a context can be created with
+(`false` = `QMI_UsageException`).  The workgroup name must fit the `workgroup_name` field of the
+response packet and contain no NUL (fix eeba404). -/
+def admitContext (L : Layout) (name workgroup : List Char) : Bool :=
+  validObjectName L name && decide ((utf8Encode workgroup).length ≤ L.wgLen) && !(utf8Encode workgroup).contains 0
 
 /-- one datagram event: sender address (opaque), payload, and the two values the responder draws
 from its environment when it answers (`random.randint(1, 2**64-1)`, the bits of `time.time()`) -/
